@@ -61,7 +61,7 @@ pub fn idle() {
 }
 
 pub fn limit() -> Duration {
-    Duration::from_secs(std::env::var("QVERIF_HANG_SECS").ok().and_then(|s| s.parse().ok()).unwrap_or(60))
+    Duration::from_secs(std::env::var("QVERIF_HANG_SECS").ok().and_then(|s| s.parse().ok()).unwrap_or(30))
 }
 
 /// Starts the watchdog. `to_case` turns a noted case into (violation key,
